@@ -1369,9 +1369,99 @@ def rule_depth_relative(ctx, rep: Report, rid="A7"):
         raise AnalysisError(f"{rep.prop}/{rid}: no depth computation (slice of / comparison with the namespace path) found")
 
 
+def submodules_verdict(ctx):
+    """wrap_namespace run (the analyser's own interpreter) on a tree of namespaces in which `top`, `top::outer` and
+    `top::outer::inner` are re-opened - in sibling blocks and below two different blocks of a re-opened parent - for three
+    choices of the top namespace: every namespace strictly below the top one gets its submodule variable declared exactly
+    once, by `<parent variable>.def_submodule("<its name>"`, before the variable is used as a parent; nothing is declared for
+    the top namespace itself or above it.  Returns the list of differences, or None when it cannot be run."""
+    def mk():
+        from .rules_matlab import SampleObj, _PathEval, _Raised, mini_exec
+        ci, prog = pw(ctx)
+        fn = prog.method("PybindWrapper", "wrap_namespace")
+        ps = func_params(fn)
+
+        def ns(name, path, content):
+            n_ = SampleObj(__kind__="Namespace", name=name, content=content, full_namespaces=lambda p_=path: list(p_))
+            for c_ in content:
+                c_["parent"] = n_
+            return n_
+
+        def tree():
+            deep_a = ns("deep", ["", "top", "outer", "inner", "deep"], [])
+            deep_b = ns("deep", ["", "top", "outer", "inner", "deep"], [])
+            inner_a = ns("inner", ["", "top", "outer", "inner"], [deep_a])
+            inner_a2 = ns("inner", ["", "top", "outer", "inner"], [])
+            inner_b = ns("inner", ["", "top", "outer", "inner"], [deep_b])
+            outer_a = ns("outer", ["", "top", "outer"], [inner_a, inner_a2])
+            outer_b = ns("outer", ["", "top", "outer"], [inner_b])
+            other = ns("other", ["", "top", "other"], [ns("inner", ["", "top", "other", "inner"], [])])
+            top1 = ns("top", ["", "top"], [outer_a, other])
+            top2 = ns("top", ["", "top"], [outer_b])
+            side = ns("side", ["", "side"], [ns("outer", ["", "side", "outer"], [])])
+            return ns("", [""], [top1, side, top2])
+        probs, ran = [], 0
+        for top in ([""], ["", "top"], ["", "top", "outer"]):
+            me = SampleObj(__kind__="PybindWrapper", top_module_namespaces=list(top), ignore_classes=[], module_name="mod", use_boost_serialization=False)
+            init = ci.methods.get("__init__")
+            for st in (walk_no_nested(init) if init is not None else ()):
+                if isinstance(st, ast.Assign) and len(st.targets) == 1 and isinstance(st.targets[0], ast.Attribute) and unparse(st.targets[0].value) == "self" \
+                        and st.targets[0].attr not in me:
+                    try:
+                        me[st.targets[0].attr] = ast.literal_eval(st.value)
+                    except Exception:
+                        pass
+            env = {ps[0]: me, ps[1]: tree()}
+            for p_, d_ in zip(ps[len(ps) - len(fn.args.defaults):], fn.args.defaults):
+                try:
+                    env.setdefault(p_, ast.literal_eval(d_))
+                except Exception:
+                    return None
+            try:
+                r = mini_exec(fn, env, budget=200000, methods=dict(ci.methods))
+            except (_PathEval.Unknown, _Raised, TypeError, KeyError, IndexError, AttributeError):
+                return None
+            text = r[0] if isinstance(r, list) and r and isinstance(r[0], str) else (r if isinstance(r, str) else None)
+            if text is None:
+                return None
+            ran += 1
+            all_paths = [["", "top"], ["", "top", "outer"], ["", "top", "outer", "inner"], ["", "top", "outer", "inner", "deep"], ["", "top", "other"],
+                         ["", "top", "other", "inner"], ["", "side"], ["", "side", "outer"]]
+            decls = re.findall(r"pybind11::module\s+(\w+)\s*=\s*(\w+)\.def_submodule\(\"(\w*)\"", text)
+            label = "::".join(top) or "(global)"
+            for path in all_paths:
+                under = path[:len(top)] == top[:len(path)] if len(path) <= len(top) else path[:len(top)] == top
+                want = 1 if (under and len(path) > len(top)) else 0
+                var = "m_" + "_".join(path[len(top):]) if len(path) > len(top) else None
+                got = [d for d in decls if d[0] == var] if var else []
+                if under and len(path) > len(top):
+                    if len(got) != want:
+                        probs.append(f"top namespace {label}: the variable of {'::'.join(path[1:])} is declared {len(got)} time(s)")
+                        continue
+                    parent_var = "m_" + "_".join(path[len(top):-1])
+                    if got[0][1] != parent_var or got[0][2] != path[-1]:
+                        probs.append(f"top namespace {label}: {'::'.join(path[1:])} is declared as {got[0][1]}.def_submodule(\"{got[0][2]}\")")
+                    first_use = re.search(r"\b" + re.escape(var) + r"\b", text)
+                    decl_at = re.search(r"pybind11::module\s+" + re.escape(var) + r"\b", text)
+                    if first_use and decl_at and first_use.start() < decl_at.start():
+                        probs.append(f"top namespace {label}: {var} is used before it is declared")
+            extra = [d for d in decls if not any(d[0] == "m_" + "_".join(p[len(top):]) and p[:len(top)] == top and len(p) > len(top) for p in all_paths)]
+            if extra:
+                probs.append(f"top namespace {label}: submodules declared outside it: {extra[:2]}")
+        return probs if ran == 3 else None
+    return ctx._get("pybind_submodules_verdict", mk)
+
+
 def rule_submodule_once(ctx, rep: Report, rid="A4"):
     ci, prog = pw(ctx)
     fn = prog.method("PybindWrapper", "wrap_namespace")
+    verdict = submodules_verdict(ctx)
+    rep.units["submodules_by_evaluation"] = verdict is not None
+    if verdict is not None:
+        rep.add(rid, "submodule:every namespace below the top namespace is declared once, under its parent, before it is used (re-opened namespaces included)",
+                not verdict, f"wrap_namespace run on a tree with re-opened namespaces: {verdict[:3]}: a module variable declared twice does not compile, one that "
+                f"is not declared is used by every binding of that namespace", f"{ci.mod.rel}:{fn.lineno}")
+        return
     fo = folder_for(ctx, fn)
     site = None
     for x in walk_no_nested(fn):
@@ -2391,9 +2481,11 @@ def _sample_pybind_class():
     return cls
 
 
-def class_block_by_evaluation(ctx):
+def class_block_by_evaluation(ctx, cls=None):
     """(text of the class block the pybind generator emits for the sample class, the sample class) - or None when
-    wrap_instantiated_class cannot be run by the interpreter; cached."""
+    wrap_instantiated_class cannot be run by the interpreter; cached for the standard sample."""
+    custom = cls
+
     def mk():
         from .rules_matlab import SampleObj, _PathEval, _Raised, mini_exec, program_classes
         ci, prog = pw(ctx)
@@ -2412,13 +2504,127 @@ def class_block_by_evaluation(ctx):
                     me[st.targets[0].attr] = ast.literal_eval(st.value)
                 except Exception:
                     pass
-        cls = _sample_pybind_class()
+        cls = custom if custom is not None else _sample_pybind_class()
         try:
             text = mini_exec(fn, {ps[0]: me, ps[1]: cls}, budget=300000, methods=dict(ci.methods), classes=classes)
         except (_PathEval.Unknown, _Raised, TypeError, KeyError, IndexError, AttributeError):
             return None
         return (text, cls) if isinstance(text, str) and "py::class_" in text else None
-    return ctx._get("pybind_class_block", mk)
+    return ctx._get("pybind_class_block", mk) if custom is None else mk()
+
+
+def _special_cased_names(ctx):
+    """(class spellings, member names) the pybind generator compares against literally: `cpp_class == 'gtsam::Values'`,
+    `method.name == 'insert'`, `py_method in self._ipython_special_methods` aside - string constants on one side of `==` / `in`
+    whose other side is the class spelling or a member's name."""
+    ci, prog = pw(ctx)
+    classes, members = set(), set()
+    for fn in ci.methods.values():
+        # only what is tested *together with* a class spelling - in the same condition or under it - is the special case of a class
+        tests = []
+        for i_ in ast.walk(fn):
+            if isinstance(i_, ast.If):
+                chain, p_ = [i_.test], parent(i_)
+                while p_ is not None and p_ is not fn:
+                    if isinstance(p_, ast.If):
+                        chain.append(p_.test)
+                    p_ = parent(p_)
+                tests.append(chain)
+        scoped = set()
+        for chain in tests:
+            cmps = [c for t in chain for c in ast.walk(t) if isinstance(c, ast.Compare)]
+            if any("::" in x.value for c in cmps for x in ast.walk(c) if isinstance(x, ast.Constant) and isinstance(x.value, str)):
+                scoped |= {id(c) for c in cmps}
+        for c in ast.walk(fn):
+            if not (isinstance(c, ast.Compare) and len(c.ops) == 1 and isinstance(c.ops[0], (ast.Eq, ast.In)) and id(c) in scoped):
+                continue
+            sides = [c.left, c.comparators[0]]
+            lits = []
+            for x in sides:
+                if isinstance(x, ast.Constant) and isinstance(x.value, str):
+                    lits.append(x.value)
+                elif isinstance(x, (ast.Tuple, ast.List, ast.Set)):
+                    lits += [e.value for e in x.elts if isinstance(e, ast.Constant) and isinstance(e.value, str)]
+            other = [unparse(x) for x in sides if not isinstance(x, (ast.Constant, ast.Tuple, ast.List, ast.Set))]
+            if not lits or not other:
+                continue
+            o = other[0]
+            for lit in lits:
+                if not re.fullmatch(r"[A-Za-z_][\w:]*", lit):
+                    continue
+                if "cpp_class" in o or o.endswith("to_cpp()") or "class" in o.lower() and "::" in lit:
+                    classes.add(lit)
+                elif o.endswith(".name") or o in ("py_method", "cpp_method", "method_name", "name"):
+                    members.add(lit)
+    return sorted(classes), sorted(members)
+
+
+def rule_special_cased_members_keep_their_binding(ctx, rep: Report, rid="A13"):
+    """The generator treats a few members by name (`insert` of `gtsam::Values` gets an additional, specially named binding;
+    `print`, `serialize` ... get companions).  A special case may *add* bindings; it never takes the ordinary one away: every
+    declared overload of such a member is still bound once under its declared name, whatever its parameter list looks like.
+    Decided by running wrap_instantiated_class on a class spelled like each special-cased class, with overloads of each
+    special-cased member name whose first parameter is a `size_t`, a class and a key (the names are read off the generator's
+    own comparisons)."""
+    from .rules_matlab import SampleObj
+    ci, prog = pw(ctx)
+    fn = prog.method("PybindWrapper", "wrap_instantiated_class")
+    loc = f"{ci.mod.rel}:{fn.lineno}"
+    cls_names, mem_names = _special_cased_names(ctx)
+    rep.units["special_cased_classes"] = cls_names
+    rep.units["special_cased_members"] = mem_names
+    skip = {"serialize", "deserialize", "print", "__call__", "__getitem__"}      # companions with rules of their own (A9, W9 ...)
+    mem_names = [m for m in mem_names if m not in skip and not m.startswith("__")]
+    if not cls_names or not mem_names:
+        rep.add(rid, "special-cased members:none found", True, "the generator compares no class spelling / member name literally", loc, nontrivial=False)
+        return
+    ran, probs = 0, []
+
+    def tn(name, ns=()):
+        return SampleObj(__kind__="Typename", name=name, namespaces=list(ns), instantiations=[])
+
+    def ty(name, ns=(), const="", ref=""):
+        return SampleObj(__kind__="Type", typename=tn(name, ns), is_const=const, is_ref=ref, is_ptr="", is_shared_ptr="", is_basic=name in ("double", "size_t"))
+
+    def mk_args(specs):
+        al = [SampleObj(__kind__="Argument", name=n, ctype=t, default=None, parent=None) for n, t in specs]
+        return SampleObj(__kind__="ArgumentList", args_list=al, parent=None)
+    for spelled in cls_names + ["other::Container"]:
+        parts = spelled.split("::")
+        cls = SampleObj(__kind__="InstantiatedClass", name=parts[-1], parent_class="", template="", is_virtual=False, to_cpp=lambda s_=spelled: s_,
+                        namespaces=lambda p_=parts: [""] + p_[:-1], instantiations=[], enums=[], dunder_methods=[], ctors=[], properties=[], operators=[])
+
+        def decl(kind, name, specs, cls=cls):
+            return SampleObj(__kind__="Instantiated" + kind, __bases__=[kind], name=name, args=mk_args(specs), parent=cls, template="", is_const="",
+                             to_cpp=lambda: name, return_type=SampleObj(__kind__="ReturnType", type1=ty("void"), type2=""))
+        meths, stats = [], []
+        for m in mem_names:
+            meths += [decl("Method", m, [("j", ty("size_t")), ("vector", ty("Vector", ("gtsam",), const="const", ref="&"))]),
+                      decl("Method", m, [("values", ty(parts[-1], parts[:-1], const="const", ref="&"))]),
+                      decl("Method", m, [("key", ty("Key", ("gtsam",))), ("pose", ty("Pose3", ("gtsam",), const="const", ref="&"))])]
+            stats += [decl("StaticMethod", m, [("key", ty("Key", ("gtsam",)))])]
+        cls["methods"], cls["static_methods"] = meths, stats
+        got = class_block_by_evaluation(ctx, cls)
+        if got is None:
+            continue
+        ran += 1
+        defs = _defs_of(got[0])
+        for m in mem_names:
+            n_def = len([d for k, d in defs if k == "def" and re.match(r'\.def\("' + re.escape(m) + r'"', d)])
+            n_st = len([d for k, d in defs if k == "def_static" and re.match(r'\.def_static\("' + re.escape(m) + r'"', d)])
+            if n_def != 3:
+                probs.append(f"class {spelled}: {n_def} of the 3 declared overloads of `{m}` are bound under that name")
+            if n_st != 1:
+                probs.append(f"class {spelled}: the static `{m}` is bound {n_st} time(s)")
+    rep.units["special_cased_class_blocks_evaluated"] = ran
+    if ran == 0 and class_block_by_evaluation(ctx) is None:
+        # the generator as a whole is beyond the interpreter on this tree (A12 says so as well): the structural rules A2 / A9 decide
+        rep.add(rid, "special-cased members:class block evaluated", True, "not evaluable; the structural rules decide", loc, nontrivial=False)
+        return
+    if ran < len(cls_names) + 1:
+        raise AnalysisError(f"{rep.prop}/{rid}: the class block could be evaluated for {ran} of {len(cls_names) + 1} sample classes only")
+    rep.add(rid, "special-cased members:every declared overload keeps its ordinary binding", not probs,
+            f"{probs[:3]}: the special case replaces the binding instead of adding to it - a declared method is missing from the Python class", loc)
 
 
 def _defs_of(text: str):
